@@ -146,6 +146,16 @@ def wire_mailbox(name: str) -> bytes:
 
 # -- message bytes ------------------------------------------------------------
 
+PUMP_PREFIXES = [b'Re', b'Fwd', b'Fw', b're:', b'', b'Re ', b'[',
+                 b'=?utf-8?q?', b'"', b'<']
+PUMP_UNITS = [b'[x]', b'[x] ', b'[]', b're: ', b'[a][b]', b' ', b'(', b'\t ',
+              b'<a>', b'=?', b'a@b,', b'\\"', b'x ', b'fwd: [t] ']
+PUMP_TAILS = [b'', b'x', b'!', b']', b':', b'\xff']
+PUMP_HEADERS = [b'Subject', b'From', b'To', b'Content-Type',
+                b'Content-Disposition', b'Date', b'Message-ID',
+                b'In-Reply-To', b'References']
+
+
 def pump(rng: random.Random) -> bytes:
     """A 'pumped' string: a short unit repeated many times after a prefix
     that looks like the start of something the server's regexes recognise,
